@@ -51,6 +51,9 @@ def program(name, direction):
         ins = '%s RA' % name
     else:
         ins = name
+    if name in LABELLED and direction == 'abs':
+        # the target is a constant (an absolute address inside the image's address space)
+        return 'addi x0 x0 0\n%s' % ins.replace(' L', ' T').replace(',L', ',T'), 2, None
     if name in LABELLED and direction == 'ctx':
         # context: a call/tail to a (near or far) second label first, the target label sits
         # directly on a collapsing li, the pseudo-instruction under test refers back to it
@@ -97,11 +100,11 @@ def bv32(v):
     return v.bv(32) if isinstance(v, SymInt) else BV(v % (1 << 32), 32)
 
 
-def pseudo_task(name, direction, compress, li_bits, gap_bits):
+def pseudo_task(name, direction, compress, li_bits, gap_bits, prop='C05'):
     tag = 'pseudo:%s:%s:%s' % (name, direction, 'c' if compress else 'n')
     res = TaskResult(tag)
     src, pline, lline = program(name, direction)
-    pl = Pipeline(GAPF if name in LABELLED else {})
+    pl = Pipeline(GAPF if (name in LABELLED and direction != 'abs') else {})
     prof = common.FuncProfile()
     x = core.Explorer(timeout_ms=120000)
     n_ok = 0
@@ -114,7 +117,9 @@ def pseudo_task(name, direction, compress, li_bits, gap_bits):
             consts['RB'] = p.int('RB', lo=0, hi=31)
         if name == 'li':
             consts['K'] = p.int('K', li_bits)
-        if name in LABELLED:
+        if name in LABELLED and direction == 'abs':
+            consts['T'] = p.int('T', lo=0, hi=(1 << gap_bits))
+        elif name in LABELLED:
             markers['G0'] = p.int('G0', lo=0, hi=(1 << gap_bits))
         p.notes.update(constants=consts, markers=markers)
         with prof:
@@ -142,7 +147,7 @@ def pseudo_task(name, direction, compress, li_bits, gap_bits):
             # of the instruction (branches +-4 KiB, j/jal +-1 MiB; call/tail reach everything)
             msg = str(val)
             if name in LABELLED:
-                G = p.notes['markers']['G0']
+                G = p.notes['markers']['G0'] if direction != 'abs' else p.notes['constants']['T']
                 reach = 4090 if (name in BR1 or name in BR2) else (1048570 if name in ('j', 'jal') else (1 << 40))
                 r, mdl = p.sat(And(G % 2 == 0, G <= reach))
             else:
@@ -151,7 +156,7 @@ def pseudo_task(name, direction, compress, li_bits, gap_bits):
                 inp = {k: core.concrete(v, mdl) for k, v in {**p.notes['constants'], **p.notes['markers']}.items()}
                 rr = pl.real_assemble(src, p.notes['constants'], compress, p.notes['markers'], mdl)
                 if rr[0] == 'exc':
-                    path = common.write_replay('C05', tag + '_refused', dict(kind='program', property='C05', source=src, constants={k: v for k, v in inp.items() if k != 'G0'}, gap_bytes=inp.get('G0'), compress=compress, what='pseudo-instruction refused: ' + str(rr[1:3])))
+                    path = common.write_replay(prop, tag + '_refused', dict(kind='program', property=prop, source=src, constants={k: v for k, v in inp.items() if k != 'G0'}, gap_bytes=inp.get('G0'), compress=compress, what='pseudo-instruction refused: ' + str(rr[1:3])))
                     res['violations'].append(dict(harness='pseudo', pseudo=name, kind='refused', inputs=inp, compress=compress, error=str(rr[1:3])[:300], replay=path))
                     res.oblig(False)
                 else:
@@ -164,7 +169,7 @@ def pseudo_task(name, direction, compress, li_bits, gap_bits):
         insns, start = line_insns(blobs, pline)
         if not insns or any(n is None for n, _ in insns):
             res.oblig(False)
-            path = common.write_replay('C05', tag + '_shape', dict(kind='program', property='C05', source=src, constants=inputs, compress=compress, what='no instruction words emitted for the pseudo-instruction'))
+            path = common.write_replay(prop, tag + '_shape', dict(kind='program', property=prop, source=src, constants=inputs, compress=compress, what='no instruction words emitted for the pseudo-instruction'))
             res['violations'].append(dict(harness='pseudo', pseudo=name, kind='bad-shape', inputs=inputs, replay=path))
             continue
         ntotal = sum(n for n, _ in insns)
@@ -190,7 +195,7 @@ def pseudo_task(name, direction, compress, li_bits, gap_bits):
         ra = z3.Extract(4, 0, bv32(c['RA'])) if 'RA' in c else None
         rb = z3.Extract(4, 0, bv32(c['RB'])) if 'RB' in c else None
         seq = pc0 + BV(0, 32) + bv32(ntotal)
-        T = base + bv32(offset_of_line(blobs, lline)) if lline else None
+        T = base + bv32(offset_of_line(blobs, lline)) if lline else (base + bv32(c['T']) if 'T' in c else None)
         exp_regs, exp_pc, free6 = regs0, seq, False
         if name in ('nop', 'fence'):
             pass
@@ -232,7 +237,7 @@ def pseudo_task(name, direction, compress, li_bits, gap_bits):
                 res.inconc('%s: counterexample %r did not reproduce on the real code' % (tag, inp))
             else:
                 site = dict(harness='pseudo', pseudo=name, kind='wrong-effect', compress=compress)
-                path = common.write_replay('C05', tag, dict(kind='program', property='C05', source=src, constants={k: v for k, v in inp.items() if k != 'G0'},
+                path = common.write_replay(prop, tag, dict(kind='program', property=prop, source=src, constants={k: v for k, v in inp.items() if k != 'G0'},
                                                             gap_bytes=inp.get('G0'), compress=compress, what=detail))
                 res['violations'].append(dict(site, inputs=inp, what=detail, replay=path))
                 res.oblig(False)
@@ -286,7 +291,7 @@ def concrete_check(pl, src, pline, lline, name, inp, compress, notes, mdl):
     R = lambda i: sem.rd_(regs0, i)
     ra = BV(inp.get('RA', 0), 5)
     rb = BV(inp.get('RB', 0), 5)
-    T = base + BV(loff, 32) if lline else None
+    T = base + BV(loff, 32) if lline else (base + BV(inp['T'], 32) if 'T' in inp else None)
     exp_regs, exp_pc, free6 = regs0, seq, False
     if name == 'li':
         exp_regs = z3.Store(regs0, ra, BV(inp['K'] % (1 << 32), 32))
